@@ -423,8 +423,44 @@ def load_group(name):
     return g
 
 
+def expand_derives(group, workdir):
+    """R-DERIVE: run the REAL altrios proc macros (built from the current tree) on the real struct items and
+    return the path of the expansion; step/save_state/push/len bodies are then extracted from it by vx."""
+    ensure_vx()
+    env = dict(os.environ, CARGO_NET_OFFLINE="true", CARGO_TARGET_DIR=os.path.join(BUILD, "pm_target"))
+    r = sh(["cargo", "build", "-p", "altrios-proc-macros", "--offline", "--manifest-path", os.path.join(REPO, "rust", "Cargo.toml")], env=env)
+    if r.returncode != 0:
+        raise Undecided("building altrios-proc-macros failed: " + r.stderr[-1500:])
+    so = os.path.join(BUILD, "pm_target", "debug", "libaltrios_proc_macros.so")
+    plan = {"src_root": SRC, "items": [{"id": "raw " + x["name"], "file": x["file"], "kind": "struct_raw", "name": x["name"]} for x in group["expand"]]}
+    pp = os.path.join(workdir, "plan_raw.json")
+    json.dump(plan, open(pp, "w"), indent=1)
+    r = sh([VX, pp])
+    if r.returncode != 0:
+        raise Undecided("vx (struct_raw) failed: " + r.stderr[-1500:])
+    items = json.loads(r.stdout)
+    bad = [(i["id"], i["error"]) for i in items if not i["ok"]]
+    if bad:
+        raise Undecided("derive input extraction failed: %s" % bad)
+    probe = os.path.join(workdir, "derive_probe.rs")
+    open(probe, "w").write("use altrios_proc_macros::*;\n" + "\n".join(i["text"] for i in items) + "\n")
+    exp = os.path.join(workdir, "expanded.rs")
+    env2 = dict(os.environ, RUSTC_BOOTSTRAP="1")
+    r = subprocess.run(["rustc", "--edition", "2021", "-Zunpretty=expanded", "--extern", "altrios_proc_macros=" + so, probe], capture_output=True, text=True, env=env2, cwd=workdir)
+    if not r.stdout.strip() or "impl " not in r.stdout:
+        raise Undecided("derive expansion produced nothing: " + r.stderr[-800:])
+    open(exp, "w").write(r.stdout)
+    return exp
+
+
 def extract(group, workdir):
     ensure_vx()
+    exp = None
+    if group.get("expand"):
+        exp = expand_derives(group, workdir)
+        for it in group["items"]:
+            if it.get("file") == "@expanded":
+                it["file"] = exp
     plan = {
         "src_root": SRC,
         "uc_file": "uc.rs",
@@ -442,6 +478,9 @@ def extract(group, workdir):
         raise Undecided("extraction failed (unsupported construct or lost anchor): %s" % bad)
     # format all at once, separated by sentinel comments
     SEP = "\n// ===VXSEP===\n"
+    for i in items:
+        if "// ===VXEXTRA===" in i["text"]:
+            i["text"], i["extra_spec"] = i["text"].split("// ===VXEXTRA===", 1)
     joined = SEP.join(i["text"] for i in items)
     f = rustfmt(joined)
     parts = f.split("// ===VXSEP===")
@@ -453,7 +492,8 @@ def extract(group, workdir):
         it["assume"] = bool(gi.get("assume"))
         # provenance hash of the original source lines
         try:
-            src_lines = open(os.path.join(SRC, it["file"])).read().split("\n")[it["line_start"] - 1:it["line_end"]]
+            fpath = it["file"] if it["file"].startswith("/") else os.path.join(SRC, it["file"])
+            src_lines = open(fpath).read().split("\n")[it["line_start"] - 1:it["line_end"]]
             it["sha256"] = hashlib.sha256("\n".join(src_lines).encode()).hexdigest()
         except Exception:
             it["sha256"] = None
@@ -471,6 +511,9 @@ def assemble(group, items, units, preamble, canary=False, drop_hints=()):
         if it["ftext"].lstrip().startswith(("#[derive", "pub struct", "pub enum")) and "vx_contract!" not in it["ftext"]:
             a.add("// from %s:%d-%d" % (it["file"], it["line_start"], it["line_end"]))
             a.add(it["ftext"].rstrip("\n"), it["id"], "type", it["id"], [])
+            if it.get("extra_spec"):
+                a.add("// generated column spec (mechanical, from the struct's field list)")
+                a.add(it["extra_spec"].strip())
     a.add("// ---- contract preamble (specs, lemmas, abstracted callees)")
     a.add(preamble, "preamble", "preamble", "preamble", [])
     a.add("// ---- extracted functions with spliced contracts")
